@@ -335,3 +335,182 @@ func VH_Tokens() {
 		vAssert(false, "C14/wrong-rule-kind")
 	}
 }
+
+// ---- C07: decode(build(r)) re-encodes to the same rule ---------------------------------------------
+
+func init() { vEntries["VH_RoundTrip"] = VH_RoundTrip }
+
+func vDigitsNZ(name string, n int) string {
+	s := vStr(name, n)
+	for i := 0; i < n; i++ {
+		vAssume(vAnd(s[i] >= '0', s[i] <= '9'))
+	}
+	if n > 1 {
+		vAssume(s[0] != '0')
+	}
+	return s
+}
+
+func vDec(d string) uint64 {
+	var v uint64
+	for i := 0; i < len(d); i++ {
+		v = v*10 + uint64(d[i]-'0')
+	}
+	return v
+}
+
+// vPlain: n symbolic bytes without white space, quotes or other shell-active characters (the
+// property's domain: ToCommandLine does not quote).
+func vPlain(name string, n int) string {
+	s := vStr(name, n)
+	for i := 0; i < n; i++ {
+		c := s[i]
+		vAssume(vAnd(c > ' ', c < 0x7f))
+		vAssume(vAnd(vAnd(c != '\'', c != '"'), vAnd(c != '\\', c != 1)))
+	}
+	return s
+}
+
+var vRTFields = []string{"pid", "uid", "gid", "auid", "exit", "msgtype", "arch", "path", "exe", "key", "perm", "filetype", "a0", "success", "inode", "subj_user", "obj_uid", "dir"}
+
+func vRTFilter(name string, idx int, ops []string) rule.FilterSpec {
+	op := ops[vChoose("op", len(ops))]
+	tag := "v" + string([]byte{'0' + byte(idx)})
+	var rhs string
+	switch name {
+	case "uid", "auid", "obj_uid", "gid":
+		switch vChoose(tag+"form", 3) {
+		case 0:
+			rhs = vDigitsNZ(tag, vParam("digits", 10))
+			vAssume(vDec(rhs) < 1<<32)
+		case 1:
+			if name == "gid" {
+				rhs = "4294967295"
+			} else {
+				rhs = "-1"
+			}
+		case 2:
+			rhs = "root"
+		}
+	case "exit":
+		switch vChoose(tag+"form", 3) {
+		case 0:
+			rhs = vDigitsNZ(tag, vParam("smalldigits", 4))
+		case 1:
+			rhs = "-" + vDigitsNZ(tag, vParam("smalldigits", 4))
+			vAssume(rhs != "-0")
+		case 2:
+			rhs = []string{"EPERM", "-ENOENT", "-EACCES", "EAGAIN"}[vChoose(tag+"errno", 4)]
+		}
+	case "msgtype":
+		if vChoose(tag+"form", 2) == 0 {
+			rhs = vDigitsNZ(tag, vParam("digits", 10))
+			vAssume(vDec(rhs) < 1<<32)
+		} else {
+			rhs = []string{"USER_LOGIN", "AVC", "1199"}[vChoose(tag+"name", 3)]
+		}
+	case "arch":
+		rhs = []string{"b64", "b32", "x86_64", "i386", "aarch64", "ppc64le"}[vChoose(tag+"arch", 6)]
+	case "path", "exe", "key", "subj_user", "dir":
+		if name == "dir" {
+			rhs = "/etc"
+		} else if name == "path" && vParam("realpath", 0) != 0 {
+			rhs = "/etc/passwd"
+		} else {
+			rhs = "/" + vPlain(tag, vLen(tag+"len", vParam("strmax", 2)))
+		}
+	case "perm":
+		bits := 1 + vChoose(tag+"perm", 15)
+		for i, c := range []string{"r", "w", "x", "a"} {
+			if bits&(1<<i) != 0 {
+				rhs += c
+			}
+		}
+	case "filetype":
+		rhs = []string{"file", "dir", "fifo", "socket"}[vChoose(tag+"ft", 4)]
+	default:
+		rhs = vDigitsNZ(tag, vParam("digits", 10))
+		vAssume(vDec(rhs) < 1<<32)
+	}
+	return rule.FilterSpec{Type: rule.ValueFilterType, LHS: name, Comparator: op, RHS: rhs}
+}
+
+func VH_RoundTrip() {
+	var r rule.Rule
+	shape := vParam("shape", 0)
+	allOps := []string{"=", "!=", "<", ">", "<=", ">=", "&", "&="}
+	eqOps := []string{"=", "!="}
+	switch shape {
+	case 0: // a syscall rule with one or two filters, optional syscalls and keys
+		list := []string{"exit", "task", "user", "exclude"}[vParam("list", 0)]
+		action := []string{"always", "never"}[vChoose("action", 2)]
+		sr := &rule.SyscallRule{Type: rule.AppendSyscallRuleType, List: list, Action: action}
+		f1 := vRTFields[vParam("field", 0)]
+		ops := allOps
+		if f1 == "arch" || f1 == "inode" || f1 == "perm" {
+			ops = eqOps
+		}
+		if vParam("oneop", 0) != 0 {
+			ops = ops[:1]
+		}
+		sr.Filters = append(sr.Filters, vRTFilter(f1, 0, ops))
+		if f2 := vParam("second", -1); f2 >= 0 {
+			sr.Filters = append(sr.Filters, vRTFilter(vRTFields[f2], 1, eqOps[:1]))
+		}
+		switch vChoose("syscalls", vParam("sysforms", 3)) {
+		case 1:
+			sr.Syscalls = []string{[]string{"open", "execve", "all"}[vChoose("sysname", 3)]}
+		case 2:
+			// by number: concrete picks (a symbolic number makes all 2048 mask bits symbolic for the
+			// decoder); 1000 and 2047 have no name in the x86_64 table
+			sr.Syscalls = []string{[]string{"0", "59", "1000", "2047"}[vChoose("sysno", 4)]}
+		}
+		for i, nk := 0, vChoose("keys", vParam("maxkeys", 1)+1); i < nk; i++ {
+			sr.Keys = append(sr.Keys, vPlain("key", 1+vChoose("keylen", 2)))
+		}
+		r = sr
+	case 1: // a file watch
+		fw := &rule.FileWatchRule{Type: rule.FileWatchRuleType, Path: []string{"/etc/passwd", "/etc", "/zzverif/" + vPlain("leaf", 1+vChoose("leaflen", 2))}[vChoose("path", 3)]}
+		for i := len("/zzverif/"); i < len(fw.Path); i++ {
+			vAssume(vAnd(fw.Path[i] != '/', fw.Path[i] != '.'))
+		}
+		bits := vChoose("perm", 16)
+		for i, a := range []rule.AccessType{rule.ReadAccessType, rule.WriteAccessType, rule.ExecuteAccessType, rule.AttributeChangeAccessType} {
+			if bits&(1<<i) != 0 {
+				fw.Permissions = append(fw.Permissions, a)
+			}
+		}
+		if vChoose("key", 2) == 1 {
+			fw.Keys = []string{vPlain("key", 2)}
+		}
+		r = fw
+	}
+	w1, err := rule.Build(r)
+	if err != nil {
+		vReach("C07/rejected-by-build")
+		return
+	}
+	vReach("C07/accepted-by-build")
+	t1, err := rule.ToCommandLine(w1, false)
+	vAssert(err == nil, "C07/built-rule-cannot-be-decoded")
+	if err != nil {
+		return
+	}
+	r2, err := Parse(t1)
+	vAssert(err == nil && r2 != nil, "C07/decoded-text-rejected-by-the-flag-parser")
+	if r2 == nil {
+		return
+	}
+	w2, err := rule.Build(r2)
+	vAssert(err == nil, "C07/decoded-text-rejected-by-build")
+	if err != nil {
+		return
+	}
+	same := len(w1) == len(w2)
+	vAssert(same, "C07/re-encoded-rule-differs")
+	for i := 0; same && i < len(w1); i++ {
+		vAssert(w1[i] == w2[i], "C07/re-encoded-rule-differs")
+	}
+	t2, err := rule.ToCommandLine(w2, false)
+	vAssert(err == nil && t2 == t1, "C07/second-decode-gives-different-text")
+}
